@@ -662,7 +662,7 @@ def run(ctx):
           # one caller only looks the call up (ignores the result) while the other reads and caches the value
           ("fs+cache-one|store|ignore-vs-call", "fs+cache-one", "store", [[("g!ignore", 1)], [("g", 1)]])]
     c09.concurrent_part(ctx, cs, False, "two threads hitting / filling a cache that fits one entry (or all): usage == what the resident entries "
-                        "account for, recency list consistent, final cache as after a sequential order", bound=2 if thorough else 1)
+                        "account for, recency list consistent, final cache as after a sequential order", bound=1, deep=(2, "runner", "calls") if thorough else None)
     ctx.count(evaluations=ctx.transitions)
 
 
